@@ -1,11 +1,12 @@
 CONSTANTS
   Peers = {1, 2, 3, 4, 5, 6}
-  Hashes = {1, 2, 3}
+  Hashes = {1, 2, 3, 11, 12}
   D = 2
   MaxPar = 3
   MaxPend = 20000
   Horizon = 1000000
   HeadCheck = TRUE
+  PlainBase = 10
   MaxHold = 3
   CritOn = TRUE
 INIT TraceInit
